@@ -55,6 +55,17 @@ def run(chk: core.Check, replay=None) -> None:
         o.setdefault("pair_info", []).append({"clause": clause, "ok": bool(ok), **info})
         chk.stratum("pair_" + clause.split(".")[1])
 
+    # ---- a lone wind with a finite end: equal to the same wind followed by an explicit calm segment, and the monitor's
+    #      per-iteration segment clause sees the switch to calm
+    for i in range(max(2, n // 4)):
+        w1 = scen.wind_list(rng, "lone")
+        sc = base_scenario(rng, thorough, 0, w1)
+        a1 = fire(sc)
+        sc2 = copy.deepcopy(sc)
+        sc2["shot"]["winds"] = w1 + [[0.0, 0.0, 1e8]]
+        b1 = fire(sc2)
+        pair(b1, "C12.NoneBeyondTheLast", a1["outcome"] == b1["outcome"] and fp(a1) == fp(b1), partner=a1["tid"])
+        chk.stratum("lone_wind_with_finite_end")
     for i in range(n):
         # ---- plain multi-segment lists (shuffled, duplicates, zero-length, zero-speed, beyond range)
         w = scen.wind_list(rng, "multi")
@@ -187,7 +198,7 @@ def run(chk: core.Check, replay=None) -> None:
         (l for l in outs[0]["lines"] if l["ev"] == "Iter"), None)})
     chk.sample({"pair_lines": pairs[:3]})
     chk.sample({"tlc_behaviour": {k: v for k, v in behs[0].items() if k != "consts"}})
-    chk.require_strata(["default_wind_of_another_shot_edited", "obj_duplicate_wind_ends", "duplicate_until", "zero_until", "switch_inside_range", "pair_OrderInsensitive",
+    chk.require_strata(["lone_wind_with_finite_end", "default_wind_of_another_shot_edited", "obj_duplicate_wind_ends", "duplicate_until", "zero_until", "switch_inside_range", "pair_OrderInsensitive",
                         "pair_Causal", "pair_Mirror", "mirror_with_spin", "pair_ZeroWindEqualsNoWind", "pair_Signs"])
     chk.exhaustive = False
     chk.rule.append("design: Integrator.tla (C12_SegmentByPosition) on wind-end lists with duplicates, zeros and ends beyond range; "
